@@ -222,7 +222,7 @@ SPEC = PropertySpec(
     modules=MODULES,
     run=run,
     replay=replay,
-    gen=translate.generate,
+    gen=translate.gen_for('JumpStep'),
     rule=('exhaustive: every one-atom history over 2 sites + "none" (default mode, inner = outer) and every (site, inner) history '
           'with inner_t in {-1, site_t} up to the stated lengths, each under minimal_residence in {0,1,2,3,5}, through '
           '_calculate_transition_events + _generic_transitions_to_jumps; random multi-atom histories up to 300 frames with random '
